@@ -156,6 +156,7 @@ fn judge(
     };
     if !same {
         stats.nondeterministic += 1;
+        eprintln!("NONDETERMINISTIC (confirmation runs differ):\n{}\n  first: {:?}\n  second: {:?}", src, ra, rb);
         return;
     }
     let confirmed = match &ra {
@@ -166,6 +167,7 @@ fn judge(
         // the disagreement does not reproduce alone: history dependence inside a batch of independent
         // programs on fresh interpreters cannot be the program's doing
         stats.nondeterministic += 1;
+        eprintln!("NONDETERMINISTIC (mismatch in batch does not reproduce alone): {}\n{}\n  batch: {:?}\n  alone: {:?}", mismatch, src, first, ra);
         let _ = mismatch;
         return;
     };
@@ -277,6 +279,7 @@ fn judge_batch(runner: &mut Runner, hooks: &Hooks, batch: Vec<Case>, check_deter
             };
             if !same {
                 stats.nondeterministic += 1;
+                eprintln!("NONDETERMINISTIC (determinism probe):\n{}\n  first: {:?}\n  again: {:?}", p.src, first, again.describe());
             }
         }
         judge(&mut stats, runner, hooks, &batch[p.case_idx], &p.src, &p.modules, &p.model, first, desc);
